@@ -1185,8 +1185,15 @@ func abs(x float64) float64 {
 	return x
 }
 
+// roundup rounds to one decimal, half up.
+// The exact score is a multiple of 1/42000 at worst (lookup values have one
+// decimal, depths divide 840, at most 5 lower MacroVectors), so an exact x.x5
+// often comes out of the float64 computation as x.x4999..., which would be
+// rounded down. As the FIRST reference implementation does, a small epsilon
+// (far below the distance of any non-tie value to the rounding threshold) is
+// added before rounding.
 func roundup(x float64) float64 {
-	return math.Round(x*10) / 10
+	return math.Round((x+1e-6)*10) / 10
 }
 
 // Nomenclature returns the CVSS v4.0 configuration used when scoring.
